@@ -32,6 +32,14 @@ def sh(cmd, cwd=None, env=None, timeout=3600):
 
 
 def pytest_count(wt):
+    # the repository's tests share a file in the temporary directory: test runs of parallel evaluations are serialised
+    import fcntl
+    with open("/tmp/seeded-pytest.lock", "w") as lock:
+        fcntl.flock(lock, fcntl.LOCK_EX)
+        return _pytest_count(wt)
+
+
+def _pytest_count(wt):
     rc, out = sh(f"{PY} -m pytest -q -p no:cacheprovider --timeout=900 2>&1 | tail -3", cwd=wt)
     m = re.search(r"(\d+) passed", out)
     failed = re.search(r"(\d+) (failed|error)", out)
